@@ -26,29 +26,39 @@ use vcore::{CaseCfg, Ctx, Draw, Outcome, hash_str, json};
 
 /// Constructs for which the checker promises bit-level precision (so the
 /// exact direction R3 is asserted at bit level), each with the place in /repo
-/// that makes the promise.
+/// that makes the promise.  A test states the promise whether or not it is
+/// currently `#[ignore]`d: on this tree most "comb-loop migration: false
+/// positive" markers are stale (the ignored positional tests for shifts,
+/// ternaries, bitwise operators, left-hand concatenations and unused function
+/// actuals all hold when run through the front end).
 pub const BIT_PRECISE: &[(&str, &str)] = &[
-    ("bit / part selects, both sides", "region.rs NodeKey doc: \"bit-disjoint reads/writes form disjoint nodes\"; test comb_loop_through_disjoint_bits, procedural_tests …disjoint_partial_write_self_reference…"),
-    ("array elements with constant index", "function_tests …static_array_elements_remain_distinct_regions; procedural_tests …forward_array_chain…"),
-    ("packed struct members", "function_tests …static_struct_members_remain_distinct_regions"),
-    ("concatenation on the right and on the left", "positional_tests preserves_concatenated_lhs_bits…, …concatenation_permutation_preserves_structural_feedback"),
-    ("bitwise operators ~ & | ^ ~^", "positional_tests …same_width_bitwise_operators_preserve_positional_provenance"),
-    ("constant shifts", "positional_tests preserves_constant_shift_positions…, preserves_local_right_shift_positions…"),
-    ("if ? : data inputs (condition -> every bit)", "positional_tests preserves_vector_ternary_positions…"),
-    ("statement order in always_comb, branch merges", "ssa.rs module doc \"statement-ordered SSA\"; procedural_tests statement_order_and_observer_semantics…, …procedural_overwrite_within_always_comb_is_not_a_loop…"),
+    ("bit / part selects, both sides", "region.rs NodeKey doc: \"bit-disjoint reads/writes form disjoint nodes\"; tests.rs comb_loop_through_disjoint_bits; procedural_tests ..disjoint_partial_write_self_reference.., ..opposite_directions_on_disjoint_bits"),
+    ("array elements with constant index", "function_tests ..static_array_elements_remain_distinct_regions; procedural_tests ..forward_array_chain.., ..bit_precise_nodekey_distinguishes_ca_0_ca_1_ca_2.."),
+    ("packed struct members", "function_tests ..static_struct_members_remain_distinct_regions"),
+    ("concatenation on the right and on the left", "positional_tests preserves_concatenated_lhs_bits.. (both), ..concatenation_permutation_preserves_structural_feedback, ..local_concatenation_does_not_taint_a_constant_low_bit"),
+    ("bitwise operators ~ & | ^ ~^", "positional_tests ..same_width_bitwise_operators_preserve_positional_provenance; sparse_tests ..same_width_bitwise_operators_retain_same_bit_feedback"),
+    ("constant shifts at the top level of an assignment / concatenation / bitwise expression", "positional_tests preserves_constant_shift_positions.., preserves_local_right_shift_positions.., left_shift_beyond_width_has_no_value_dependency"),
+    ("if ? : data inputs (condition -> every bit)", "positional_tests preserves_vector_ternary_positions.., preserves_nested_vector_ternary_positions.."),
+    ("statement order in always_comb, branch merges", "ssa.rs module doc \"statement-ordered SSA state\"; procedural_tests statement_order_and_observer_semantics.., ..procedural_overwrite_within_always_comb_is_not_a_loop.., ordered_module_scope_reassignments_are_feed_forward, ..case_phi_with_complete_definitions"),
     ("if conditions -> every bit assigned under them", "procedural_tests if_assignment_to_array_is_feed_forward_condition_driven_loop_is_reported"),
-    ("functions: per-call inlining, return bits, locals in statement order", "function_tests preserves_vector_function_return_bits…, …function_local_partial_writes_are_ordered, …function_bit_select_must_not_taint_a_disjoint_actual_bit"),
-    ("always_ff registers break paths", "procedural_tests …ff_broken_feedback…; module_tests …module_instance_with_ff_driven_output…"),
-    ("parent side of an instance connection (actual reads, destination bits)", "module_tests …a_static_slice_connection_does_not_contaminate_its_sibling_bit"),
+    ("functions: per-call inlining, return bits, locals in statement order, unused actuals", "function_tests preserves_vector_function_return_bits.., ..function_local_partial_writes_are_ordered, ..function_bit_select_must_not_taint_a_disjoint_actual_bit, function_local_state_does_not_leak_between_calls, ..merely_evaluating_an.. (unused actual)"),
+    ("always_ff registers break paths", "procedural_tests ..ff_broken_feedback..; module_tests ..module_instance_with_ff_driven_output.."),
+    ("parent side of an instance connection (actual reads, destination bits)", "comb_loop_detect.rs ModuleCombSummary doc: \"the parent keeps bit precision via BitPartition\"; module_tests ..a_static_slice_connection_does_not_contaminate_its_sibling_bit"),
 ];
 
-/// Where the checker documents that it is coarser than bit level: `doc`
-/// applies exactly these coarsenings and R3 is asserted against `doc`.
+/// Where `doc` is coarser than `fine`; R3 is asserted against `doc`, and a
+/// module on which the two disagree accepts either verdict (counted).
 pub const DOCUMENTED_COARSE: &[(&str, &str)] = &[
-    ("module instance boundary: input port -> output port, all bits of the actual -> all destination bits", "comb_loop_detect.rs `ModuleCombSummary`: \"Port-level only\"; ignored tests \"false positive; module feedthrough and instance mapping\" (module_tests)"),
-    ("a function formal that the body never reads still makes the result depend on its actual", "ignored test \"false positive; unused function actual is not a return dependency\" (function_tests)"),
-    ("arithmetic / comparison / reduction / logical operators: every operand bit -> every result bit", "sparse_tests …four_state_arithmetic_depends_on_every_operand_bit, …reduction_operators_remain_dependent_on_every_operand_bit (this is also what `fine` does: 4-state x-propagation)"),
+    ("module instance boundary: child input port -> child output port; every bit read by the actual -> every destination bit", "comb_loop_detect.rs `ModuleCombSummary` doc: \"Port-level only -- the parent keeps bit precision via BitPartition\""),
+    ("periodic transfers: when a range end point would have to cross the same positional copy relation twice (e.g. `assign o[7:1] = o[6:0];`) the partition is deliberately not refined to single bits; such a module is held to the variable-level graph only", "comb_loop_detect.rs propagate_packed_endpoints comment: \"Each observed endpoint crosses each directed relation once ... Reusing a direction around an offset cycle would materialize periodic repetitions as one boundary per vector bit\"; periodic.rs over-approximates the condition"),
+    ("a constant shift nested under an every-bit operator (arithmetic, comparison, reduction, condition) does not drop the bits shifted out", "not documented either way: the tests promise shift positions only at the top level of an assignment, and promise that such operators depend on \"every operand bit\" (sparse_tests ..four_state_arithmetic.., ..reduction_operators..); observed: `(o << 2) * c` counts o[2:1]. Accepted either way rather than reported (a false alarm is worse than a missed bug)"),
 ];
+
+use std::sync::atomic::{AtomicU64, Ordering};
+static EXCL_SELF_READ: AtomicU64 = AtomicU64::new(0);
+static EXCL_STRUCT_NOT: AtomicU64 = AtomicU64::new(0);
+static DECIDED_EXACT_MODULES: AtomicU64 = AtomicU64::new(0);
+static DECIDED_EITHER_MODULES: AtomicU64 = AtomicU64::new(0);
 
 #[derive(Clone, Copy, PartialEq)]
 enum Mode {
@@ -146,6 +156,7 @@ struct Verdicts {
     fine: Vec<graph::CycleInfo>,
     doc: Vec<bool>,
     coarse: Vec<bool>,
+    periodic: Vec<bool>,
 }
 
 fn verdicts(d: &Design, sem_extra: Sem) -> (Verdicts, Vec<graph::ModGraph>) {
@@ -153,15 +164,20 @@ fn verdicts(d: &Design, sem_extra: Sem) -> (Verdicts, Vec<graph::ModGraph>) {
     let gd = graph::build(d, Sem { port_level: true, flat_under_op: true, ..sem_extra });
     let gc = graph::coarse(d);
     let fine = d.modules.iter().zip(&gf).map(|(m, g)| graph::cycle_info(m, g)).collect();
-    let doc = d.modules.iter().zip(&gd).map(|(m, g)| graph::cycle_info(m, g).cyclic).collect();
-    let coarse = gc.iter().map(|(n, e)| !graph::cyclic_sccs(*n, e).is_empty()).collect();
-    (Verdicts { fine, doc, coarse }, gf)
+    let coarse: Vec<bool> = gc.iter().map(|(n, e)| !graph::cyclic_sccs(*n, e).is_empty()).collect();
+    let periodic: Vec<bool> = d.modules.iter().map(crate::periodic::may_be_coarse).collect();
+    // where the bounded end-point propagation may leave multi-bit atoms, only
+    // the variable-level graph bounds what the checker may report
+    let doc = (0..d.modules.len())
+        .map(|i| if periodic[i] { coarse[i] } else { graph::cycle_info(&d.modules[i], &gd[i]).cyclic })
+        .collect();
+    (Verdicts { fine, doc, coarse, periodic }, gf)
 }
 
 enum Judged {
     Skip(String),
     Fail { sig: String, msg: String, module: String },
-    Ok { v: Verdicts, reported: Vec<bool>, text: String },
+    Ok { v: Verdicts, reported: Vec<bool>, text: String, warned: bool },
 }
 
 /// Render, analyse with the real front end, compare with the graphs.
@@ -170,13 +186,18 @@ fn judge(design: &Design, mode: Mode) -> Judged {
     let Some(diags) = front::analyze(&text) else {
         return Judged::Skip("generated text does not parse (harness)".into());
     };
-    // acceptance: the loop verdict must be the only diagnostic
-    if let Some(o) = diags.iter().find(|x| x.loop_at.is_none()) {
+    // acceptance: the loop verdict must be the only error.  The one warning
+    // the dialect can draw is `unassign_variable` (an always_comb that reads
+    // bits of a variable it partly writes, the bits read being driven by
+    // another process: flagged at variable granularity, C15's subject); it
+    // does not affect the loop analysis and is kept, counted as a class.
+    if let Some(o) = diags.iter().find(|x| x.loop_at.is_none() && (x.is_error || x.code != "unassign_variable")) {
         return Judged::Skip(format!("not accepted: {} {}", if o.is_error { "error" } else { "warning" }, o.code));
     }
+    let warned = diags.iter().any(|x| x.loop_at.is_none());
     let nm = design.modules.len();
     let mut reported = vec![false; nm];
-    for x in &diags {
+    for x in diags.iter().filter(|x| x.loop_at.is_some()) {
         let at = x.loop_at.unwrap();
         match spans.iter().position(|(a, b)| *a <= at && at < *b) {
             Some(i) => reported[i] = true,
@@ -217,7 +238,7 @@ fn judge(design: &Design, mode: Mode) -> Judged {
             );
         }
     }
-    Judged::Ok { v, reported, text }
+    Judged::Ok { v, reported, text, warned }
 }
 
 /// Root-cause attribution of a wrong verdict on module `i` to a listed
@@ -240,6 +261,11 @@ fn attribute(design: &Design, i: usize, raw: &str) -> String {
     if n > 0 && matches!(judge_isolated(&d2, Mode::Main), Judged::Ok { .. }) {
         return "wrong-verdict/statement-reads-bits-it-writes".into();
     }
+    // the verdict becomes right once `~s` (s a packed struct) is written `~{s}`
+    let (d3, n) = crate::desugar::rewrite_struct_not(design);
+    if n > 0 && matches!(judge_isolated(&d3, Mode::Main), Judged::Ok { .. }) {
+        return "missed-loop/bitwise-not-of-struct-typed-as-1-bit".into();
+    }
     raw.to_string()
 }
 
@@ -255,29 +281,41 @@ fn judge_isolated(design: &Design, mode: Mode) -> Judged {
     })
 }
 
-fn case(d: &mut Draw, mode: Mode, big: bool, known: &[String]) -> Outcome {
+fn draw_design(d: &mut Draw, mode: Mode, big: bool) -> (Design, dgen::GenInfo) {
     let back_budget = d.weighted(&[3, 4, 2, 1]);
-    let cfg = Cfg {
-        back_budget,
-        defect_neg: false,
-        defect_narrow: false,
-        defect_selfread: false,
-        big,
-    };
-    let mut cfg = cfg;
+    let mut cfg = Cfg { back_budget, big, ..Cfg::default() };
     if mode == Mode::Defects {
         // one listed defect shape per case, so that a wrong verdict has one cause
-        match d.below(3) {
+        match d.below(4) {
             0 => cfg.defect_selfread = true,
             1 => cfg.defect_neg = true,
-            _ => cfg.defect_narrow = true,
+            2 => cfg.defect_narrow = true,
+            _ => cfg.defect_structnot = true,
         }
     }
-    let (design, info) = dgen::gen_design(d, cfg);
+    dgen::gen_design(d, cfg)
+}
+
+/// debugging aid (`vc-loop gen`)
+pub fn gen_text(choices: Vec<u32>, defects: bool) -> String {
+    let mut d = Draw::new(choices);
+    let (design, _) = draw_design(&mut d, if defects { Mode::Defects } else { Mode::Main }, false);
+    render(&design).0
+}
+
+fn case(d: &mut Draw, mode: Mode, big: bool, known: &[String]) -> Outcome {
+    let (design, info) = draw_design(d, mode, big);
     let nm = design.modules.len();
-    let (v, reported, text) = match judge(&design, mode) {
-        Judged::Skip(r) => return Outcome::skip(r),
-        Judged::Ok { v, reported, text } => (v, reported, text),
+    let (v, reported, text, warned) = match judge(&design, mode) {
+        Judged::Skip(r) => {
+            // development aid: keep a few rejected designs for inspection
+            if let Ok(dir) = std::env::var("C14_DUMP_SKIPS") {
+                let (t, _) = render(&design);
+                let _ = std::fs::write(format!("{dir}/skip-{:016x}.veryl", hash_str(&t)), format!("// {r}\n{t}"));
+            }
+            return Outcome::skip(r);
+        }
+        Judged::Ok { v, reported, text, warned } => (v, reported, text, warned),
         Judged::Fail { sig, msg, module } => {
             let (text, _) = render(&design);
             if known.contains(&sig) || sig.starts_with("harness/") {
@@ -301,6 +339,15 @@ fn case(d: &mut Draw, mode: Mode, big: bool, known: &[String]) -> Outcome {
             );
         }
     };
+    EXCL_SELF_READ.fetch_add(info.self_reads_avoided as u64, Ordering::Relaxed);
+    EXCL_STRUCT_NOT.fetch_add(info.struct_nots_avoided as u64, Ordering::Relaxed);
+    for i in 0..nm {
+        if v.doc[i] == v.fine[i].cyclic {
+            DECIDED_EXACT_MODULES.fetch_add(1, Ordering::Relaxed);
+        } else {
+            DECIDED_EITHER_MODULES.fetch_add(1, Ordering::Relaxed);
+        }
+    }
     let mut classes: Vec<String> = Vec::new();
     // ---- classification
     let any = |f: &dyn Fn(usize) -> bool| (0..nm).any(f);
@@ -382,8 +429,31 @@ fn case(d: &mut Draw, mode: Mode, big: bool, known: &[String]) -> Outcome {
         if info.narrow_used > 0 {
             classes.push("defect-shape:narrow-arithmetic-in-wide-context".into());
         }
+        if info.self_reads > 0 {
+            classes.push("defect-shape:statement-reads-bits-it-writes".into());
+        }
+        if info.struct_nots > 0 {
+            classes.push("defect-shape:bitwise-not-of-whole-struct".into());
+        }
+    }
+    if warned {
+        classes.push("accepted-with-warning:unassign_variable".into());
     }
     classes.push(if reported.iter().any(|x| *x) { "verdict:loop-reported" } else { "verdict:no-loop" }.into());
+    if any(&|i| v.periodic[i]) {
+        classes.push("periodic-transfers-possible(module accepts any verdict up to variable level)".into());
+    }
+    if any(&|i| reported[i] && !v.fine[i].cyclic) {
+        classes.push("observed:loop-reported-without-bit-cycle(within documented coarseness)".into());
+        // development aid: keep such designs for inspection
+        if let Ok(dir) = std::env::var("C14_DUMP_OBS") {
+            let which: Vec<String> = (0..nm)
+                .filter(|i| reported[*i] && !v.fine[*i].cyclic)
+                .map(|i| format!("{} periodic={}", design.modules[i].name, v.periodic[i]))
+                .collect();
+            let _ = std::fs::write(format!("{dir}/obs-{:016x}.veryl", hash_str(&text)), format!("// {which:?}\n{text}"));
+        }
+    }
     if either {
         classes.push("decided:either-verdict-accepted(documented coarseness)".into());
     } else {
@@ -424,16 +494,33 @@ pub fn run(ctx: &Ctx) {
     let big = !ctx.is_quick();
     let n_main = ctx.scale(4000, 160_000);
     let n_def = ctx.scale(500, 10_000);
+    // development aid only: scale the case counts (percent)
+    let pct: usize = std::env::var("C14_PERCENT").ok().and_then(|x| x.parse().ok()).unwrap_or(100);
+    let (n_main, n_def) = (n_main * pct / 100, n_def * pct / 100);
     let known: Vec<String> = ctx.findings().iter().filter(|f| f.status == "known").map(|f| f.key.clone()).collect();
     ctx.run("main", CaseCfg::cases(n_main).choices(8000).shrink_iters(0).timeout_s(1200), |d: &mut Draw| case(d, Mode::Main, big, &known));
     ctx.run("defect-shapes", CaseCfg::cases(n_def).choices(8000).shrink_iters(0).timeout_s(1200), |d: &mut Draw| case(d, Mode::Defects, big, &known));
     ctx.run_payloads("reproducers", reproducer);
 
+    ctx.note(
+        "excluded_by_construction",
+        json!({
+            "re-assignments drawn with their own target bits hidden (finding wrong-verdict/statement-reads-bits-it-writes)": EXCL_SELF_READ.load(Ordering::Relaxed),
+            "~s on a whole struct rewritten to ~{s} (finding missed-loop/bitwise-not-of-struct-typed-as-1-bit)": EXCL_STRUCT_NOT.load(Ordering::Relaxed),
+            "unary minus, arithmetic narrower than its context": "never drawn outside the defect-shapes sub",
+        }),
+    );
+    let (ex, ei) = (DECIDED_EXACT_MODULES.load(Ordering::Relaxed), DECIDED_EITHER_MODULES.load(Ordering::Relaxed));
+    ctx.note(
+        "decided_exactly",
+        json!({"modules_decided_exactly": ex, "modules_accepting_either_verdict": ei, "rate": if ex + ei > 0 { ex as f64 / (ex + ei) as f64 } else { 0.0 }}),
+    );
     ctx.note("bit_precise_constructs", json!(BIT_PRECISE.iter().map(|(a, b)| json!({"construct": a, "promise": b})).collect::<Vec<_>>()));
     ctx.note("documented_coarseness", json!(DOCUMENTED_COARSE.iter().map(|(a, b)| json!({"construct": a, "source": b})).collect::<Vec<_>>()));
     ctx.assume("the loop verdict is read from the in-process front end running the same passes as `veryl check` (parse, pass1, post_pass1, pass2, post_pass2); each finding was reproduced once with the real `veryl check` binary");
     ctx.assume("a true cycle is a cycle of the harness' bit-level graph `fine`: bit-to-bit for copies/selects/concatenations/bitwise operators/constant shifts/mux data, every-operand-bit -> every-result-bit for arithmetic, comparison, reduction and logical operators (4-state x-propagation; the checker's tests say the same), conditions -> every bit assigned under them, statement order inside always_comb and functions, registers break paths");
-    ctx.assume("the exact direction (reported => cycle) is asserted against `fine` coarsened only where the checker documents coarseness: instance boundaries are port level, an unused function formal counts as a dependency; cases where that graph and `fine` disagree accept either verdict and are counted in the class histogram");
+    ctx.assume("the exact direction (reported => cycle) is asserted against `fine` coarsened only as listed in coverage.documented_coarseness: instance boundaries are port level (documented in the checker's source), shifts nested under every-bit operators are flattened (undocumented either way); modules where that graph and `fine` disagree accept either verdict and are counted in the class histogram (decided:either-verdict-accepted)");
+    ctx.assume("excluded by construction from the main sub because of listed findings (counted in coverage.excluded_by_construction; generated on purpose by the defect-shapes sub, where a wrong verdict is attributed to the finding only if the verdict becomes right on an equivalent design without the construct or the cycle exists only under the construct's correct semantics): unary minus, arithmetic narrower than its assignment context, statements that read bits they write, ~ applied to a whole struct variable");
     ctx.assume("not generated: SystemVerilog black boxes, inout ports, recursive functions (the documented opaque constructs), dynamic indices, unpacked-array ports, interfaces, generics, case/for statements, function output arguments, signed arithmetic, width-mismatched operands (except in the defect-shape sub)");
     ctx.finish(
         "exploration",
